@@ -453,10 +453,23 @@ def dynMarker : String := "<dyn>"
     `self.(func(int32) int32)` leaves a function value alone) -/
 def dynRecvTy (env : Env) : Ty → Bool
   | .struct n => (goodStructs env).contains n
+  -- an admitted enum: the assertion `self.(E)` to the enum's interface holds by the method-set rule (`dynRecvTableOK`)
+  | .enum n => (goodEnums env).contains n
   | .unit | .bool | .string => true
   | .int _ _ => true
   | .func _ _ => true
   | _ => false
+
+/-- the emitted file gives every variant struct of an enum that is the receiver type of a vtable the method set of the
+    enum's interface: what the wrapper's assertion `self.(E)` checks (`GFile.structImplements`) -/
+def dynRecvTableOK (env : Env) (F : GFile) (forTy : Ty) : Bool :=
+  match forTy with
+  | .enum n =>
+    !valTy env forTy ||
+      (match env.getEnum n with
+       | some d => d.variants.all fun v => F.structImplements (variantGoName env n v.1) (gid n)
+       | none => false)
+  | _ => true
 
 /-- one vtable `(trait, receiver type)` is admissible: the file converts to it (so `go_file` emits its constructor and
     wrappers), the trait is known, its Go slot names are pairwise distinct, every method has value types and is implemented
@@ -904,7 +917,8 @@ def fileOK (env : Env) (file : AFile) (n : Nat) : Bool :=
   reservedGoNames.all (fun r => (F.findFunc r).isNone) &&
   structsClosed env && (goodStructs env).all (structTableOK env F) && (goodEnums env).all (enumTableOK env F) &&
   (collectRuntimeTypes env file).refs.all (refTableOK env F) && (collectRuntimeTypes env file).tuples.all (tupleTableOK env F) &&
-  ((collectDynRequirements file).traits ++ (collectDynRequirements file).vtables.map (·.1)).all (dynStructTableOK env F)
+  ((collectDynRequirements file).traits ++ (collectDynRequirements file).vtables.map (·.1)).all (dynStructTableOK env F) &&
+  (collectDynRequirements file).vtables.all (fun p => dynRecvTableOK env F p.2)
 
 /-- `G` is closed: the file-level conditions hold and every member passes the local checks with
     all its callees in `G` -/
